@@ -35,7 +35,8 @@ use serde::{Deserialize, Serialize};
 #[derive(Clone, PartialEq, Eq, Debug, Serialize, Deserialize)]
 struct ProofOfValue {
     value: NISPSecrets,
-    commitment: CL03Commitment,
+    // the commitment value only: a proof must never carry the opening of the commitment
+    commitment: Integer,
 }
 
 #[derive(Clone, PartialEq, Eq, Debug, Serialize, Deserialize)]
@@ -63,7 +64,7 @@ impl<CS: CLCiphersuite> PoKSignature<CL03<CS>> {
         let min_x = Integer::from(0);
         let max_x = Integer::from(2).pow(CS::lm) - 1;
 
-        let spok = NISPSignaturePoK::nisp5_MultiAttr_generate_proof::<CS>(
+        let (spok, C_Ce) = NISPSignaturePoK::nisp5_MultiAttr_generate_proof::<CS>(
             signature,
             commitment_pk,
             signer_pk,
@@ -76,7 +77,7 @@ impl<CS: CLCiphersuite> PoKSignature<CL03<CS>> {
         let r_proof_e = match CS::RANGEPROOF_ALG {
             RangeProof::Boudot2000 => Boudot2000RangeProof::prove::<CS::HashAlg>(
                 &signature.e,
-                &spok.Ce,
+                &C_Ce,
                 &commitment_pk.g_bases[0],
                 &commitment_pk.h,
                 &commitment_pk.N,
@@ -110,7 +111,7 @@ impl<CS: CLCiphersuite> PoKSignature<CL03<CS>> {
             );
             proofs_mi.push(ProofOfValue {
                 value: proof_mi_ri,
-                commitment: cmi.clone(),
+                commitment: cmi.value.clone(),
             });
             let r_proof_mi = match CS::RANGEPROOF_ALG {
                 RangeProof::Boudot2000 => Boudot2000RangeProof::prove::<CS::HashAlg>(
@@ -165,7 +166,7 @@ impl<CS: CLCiphersuite> PoKSignature<CL03<CS>> {
             println!("Signature PoK Failed!");
             return false;
         }
-        if CLSPoK.spok.Ce.value == CLSPoK.range_proof_e.E {
+        if CLSPoK.spok.Ce == CLSPoK.range_proof_e.E {
             //Verify RANGE PROOFS e
             let boolean_rproof_e = CLSPoK.range_proof_e.verify::<CS::HashAlg>(
                 &commitment_pk.g_bases[0],
@@ -307,7 +308,7 @@ impl<CS: CLCiphersuite> ZKPoK<CL03<CS>> {
             );
             proofs_mi.push(ProofOfValue {
                 value: proof_mi,
-                commitment: cmi.clone(),
+                commitment: cmi.value.clone(),
             });
             match CS::RANGEPROOF_ALG {
                 RangeProof::Boudot2000 => {
@@ -338,7 +339,7 @@ impl<CS: CLCiphersuite> ZKPoK<CL03<CS>> {
                 &signer_pk.b,
                 &signer_pk.N,
             ),
-            commitment: cr.cl03Commitment().to_owned(),
+            commitment: cr.value().clone(),
         };
 
         let rproof_r = match CS::RANGEPROOF_ALG {
